@@ -165,7 +165,7 @@ def build(read):
         f, "new_loc_err", "source: Error", "Result<SourcedValue>",
         "r == Err::<SourcedValue, Error>(Error::AtLoc{source: Box::new(source), line: *line, col: *col})", "eval_call")
     b.edits.append("annotation: closure `new_loc_err` given parameter type, named result and its literal postcondition")
-    f = extract.annotate_fn(f, spec=SPEC, attrs="#[verifier::loop_isolation(false)]", loops={1: LOOP})
+    f = extract.annotate_fn(f, spec=SPEC, attrs="#[verifier::exec_allows_no_decreases_clause]\n#[verifier::loop_isolation(false)]", loops={1: LOOP})
     # proof hints (ghost only): the witness for the bindings of the call
     f = extract.rewrite_regex_once(f, r"\n(\s*)\(\n(\s*)name\.clone\(\),\n",
                                    r"\n\1proof { assert(bindings_ok(bindings@, lock_deref!(f), arg_vals@, source)); }\n\1(\n\2name.clone(),\n",
